@@ -5,12 +5,27 @@
 #include "registry.hpp"
 #include "tableface.hpp"
 
+#include "inc/Verif.h"
+
 using namespace grv;
+
+namespace {
+// rule events of the case being shaped (hook events 1 = pass finished, 2 = findNDoRule returned), written as NDJSON
+FILE *g_rtrace = 0;
+void rule_sink(int ev, long a, long b, long c, long) {
+    if (!g_rtrace) return;
+    if (ev == 2) fprintf(g_rtrace, "{\"e\":\"Step\",\"rule\":%ld,\"pos\":%ld,\"adv\":%ld}\n", a + 1, b + 1, c);
+    else if (ev == 1) fputs("{\"e\":\"PassEnd\"}\n", g_rtrace);
+}
+}
 
 // grv gdl <cases.ndjson> [nocompare]
 GRV_CMD(gdl) {
     if (argc < 1) return 2;
     const bool nocompare = argc > 1 && !strcmp(argv[1], "nocompare");
+    // grv gdl <cases> trace <file>: additionally record every rule-loop step of the first direction of each case
+    FILE *rtrace = (argc > 2 && !strcmp(argv[1], "trace")) ? fopen(argv[2], "w") : 0;
+    if (rtrace) { g_rule_sink = rule_sink; graphite2::verif_rule_events = 1; }
     FILE *f = fopen(argv[0], "r"); if (!f) { perror(argv[0]); return 2; }
     std::string line; long compared = 0, nullsegs = 0, loadfail = 0;
     while (vj::readline(f, line)) {
@@ -36,7 +51,9 @@ GRV_CMD(gdl) {
         }
         for (int dir : dl) {
             GRV_WATCHDOG;
+            if (rtrace && dir == rtl) { fprintf(rtrace, "{\"e\":\"Case\",\"c\":%ld}\n", g_cases); g_rtrace = rtrace; }
             gr_segment *seg = gr_make_seg(0, face, 0, fv, gr_utf32, cps.data(), cps.size(), dir);
+            g_rtrace = 0;
             if (!seg) { ++nullsegs; if (!nocompare) { vj::W w; w.str("id", id); report_fail("C06", "gr_make_seg returned NULL for a progress-only rule program", w.done()); } continue; }
             SegP p = project(seg, face, 0, true);
             if (!p.wf.empty()) { vj::W w; w.str("id", id).i("dir", dir); if (getenv("GRV_DUMP")) w.str("got", dump_json(p)); report_fail(p.wfprop.c_str(), p.wf, w.done()); }
@@ -66,6 +83,7 @@ GRV_CMD(gdl) {
         gr_face_destroy(face);
     }
     fclose(f);
+    if (rtrace) { fclose(rtrace); g_rule_sink = 0; graphite2::verif_rule_events = 0; }
     vj::W w; w.i("compared", compared).i("null_segments", nullsegs).i("load_failures", loadfail);
     report_summary(w.done().c_str());
     return 0;
